@@ -163,7 +163,7 @@ func main() {
 	}
 	// interpreted, but the package initialiser is not run (only constant-using functions are reached)
 	eng.noInit = map[string]bool{"github.com/go-openapi/jsonpointer": true}
-	for _, g := range []string{"encoding/binary.LittleEndian", "encoding/binary.BigEndian"} {
+	for _, g := range []string{"encoding/binary.LittleEndian", "encoding/binary.BigEndian", "os.Stdin", "os.Args", "github.com/josephburnett/jd/v2/web/serve.Handle"} {
 		eng.allowGlobal[g] = true
 	}
 	for _, sp := range spkgs {
@@ -301,6 +301,9 @@ func (e *Engine) runEntry(fn *ssa.Function, nworkers int) *EntryResult {
 		res.Functions = append(res.Functions, f)
 	}
 	sort.Strings(res.Functions)
+	if res.Status["unreal"] > 0 && len(res.Violations) == 0 {
+		res.Inconclusive["assertion fails only under the idealised hash (no realisation with the real FNV-1a found)"] += res.Status["unreal"]
+	}
 	res.SolverTimeS = solverTime.Seconds()
 	res.WallS = time.Since(t0).Seconds()
 	res.Stopped = e.stop
@@ -387,6 +390,16 @@ func (w *Worker) explore(prefix []Event, covers map[string]bool, aggMu *sync.Mut
 			res.Inconclusive["path limit reached"]++
 			aggMu.Unlock()
 		}
+		if end.status == "violation" && !w.realisable(p) {
+			// the counterexample exists only under the idealised hash (order / value of the
+			// codes): not reported, exploration continues; the run is inconclusive unless a
+			// realisable violation is found
+			aggMu.Lock()
+			res.Status["violation"]--
+			res.Status["unreal"]++
+			aggMu.Unlock()
+			end.status = "unreal"
+		}
 		if end.status == "violation" {
 			s := w.sample(p, in, end)
 			aggMu.Lock()
@@ -420,6 +433,15 @@ func (w *Worker) explore(prefix []Event, covers map[string]bool, aggMu *sync.Mut
 		}
 		log = backtrack(log, fixed)
 	}
+}
+
+func (w *Worker) realisable(p *Path) (ok bool) {
+	defer func() {
+		if r := recover(); r != nil {
+			ok = true // let the native replay decide
+		}
+	}()
+	return p.realise()
 }
 
 // sample concretises the inputs (and observations) of a finished path.
